@@ -74,6 +74,8 @@ def volume_record(rng, b, fam, orient, dyadic=False):
                                               'voxel_size': [float(x) for x in vol.voxel_size]}}
     # voxel_size is L / dims (checked by ResolutionBand through dims); alpha check that the reported size matches
     vs_ok = all(abs(vs * d - L) < 1e-9 * L for vs, d, L in zip(vol.voxel_size, data.shape, lens))
+    # the volume lives in the cell of its trajectory
+    vs_ok = vs_ok and np.allclose(np.asarray(vol.lattice.matrix, dtype=float), np.asarray(M, dtype=float), rtol=1e-12, atol=1e-12)
     if not vs_ok:
         rec['dims'] = [-1, -1, -1]
     return rec
@@ -143,6 +145,12 @@ def free_energy_record(rng, b):
     form = int(rng.integers(0, 4))
     scale = [1.0, 1.0, 1e-3, 7.25][form]
     data_in = counts if form == 0 else counts.astype(float) * scale
+    # the same values in another memory layout (Fortran order, a transposed view of a C-ordered array): an array is its values
+    layout = str(rng.choice(['C', 'C', 'F', 'view']))
+    if layout == 'F':
+        data_in = np.asfortranarray(data_in)
+    elif layout == 'view':
+        data_in = np.ascontiguousarray(data_in.transpose(2, 0, 1)).transpose(1, 2, 0)
     vol = Volume(data=data_in, lattice=Lattice.cubic(6.0))
     F = vol.get_free_energy(temperature=temp)
     mutated = False
@@ -185,7 +193,7 @@ def free_energy_record(rng, b):
         g_def, g_1e7 = build_graphs()
     return {'b': b, 'act': 'FreeEnergy', 'counts': counts.tolist(), 'finite': bool(np.all(np.isfinite(data))),
             'recovered': rec_list, 'rank': rank.tolist(), 'nodesDefault': [list(map(int, n)) for n in g_def.nodes],
-            'nodes1e7': [list(map(int, n)) for n in g_1e7.nodes], 'meta': {'T': temp, 'dims': dims, 'kind': kind, 'density_scale': scale, 'integer_input': form == 0, 'data_changed_between_calls': mutated}}
+            'nodes1e7': [list(map(int, n)) for n in g_1e7.nodes], 'meta': {'T': temp, 'dims': dims, 'kind': kind, 'density_scale': scale, 'integer_input': form == 0, 'data_changed_between_calls': mutated, 'memory_layout': layout}}
 
 
 METHODS = [('dijkstra', 'sum'), ('bellman-ford', 'sum'), ('simple', 'simple'), ('dijkstra-exp', 'exp'), ('minmax-energy', 'peak')]
